@@ -31,7 +31,7 @@ class BaseSolver(abc.ABC):
     def __call__(self, instance: JobShopInstance) -> Schedule:
         time_start = time.perf_counter()
         schedule = self.solve(instance)
-        elapsed_time = time_start - time.perf_counter()
+        elapsed_time = time.perf_counter() - time_start
         schedule.metadata["elapsed_time"] = elapsed_time
         schedule.metadata["solved_by"] = self.__class__.__name__
         return schedule
